@@ -5,7 +5,7 @@ ROOT = os.path.dirname(os.path.dirname(os.path.abspath(__file__)))
 res = json.load(open(os.path.join(ROOT, 'seeded', 'results_quick.json')))
 for sid in sorted(os.listdir(os.path.join(ROOT, 'seeded'))):
     d = os.path.join(ROOT, 'seeded', sid)
-    if not os.path.isdir(d) or not re.search(r'-r[2-7]m', sid):
+    if not os.path.isdir(d) or not re.search(r'-r[2-8]m', sid):
         continue
     notes = open(os.path.join(d, 'notes.md')).read()
     title = re.sub(r'^#\s*m\d\s*-+\s*', '', notes.splitlines()[0]).strip().replace('`', '')
